@@ -130,11 +130,19 @@ def verify_unit(job):
         }
         if res == "refuted":
             rec["replay"] = replay_refutation(con, sc, ob, model, seed)
+        elif res == "unknown":
+            # the solver gave no verdict: look for a concrete witness of a contract failure of
+            # this function natively (any clause); only a replayed witness makes it a violation
+            rp = replay_refutation(con, sc, ob, None, seed, any_label=True)
+            if rp.get("reproduced"):
+                rec["status"] = "refuted"
+                rec["backend"] = "native-search"
+                rec["replay"] = rp
         out["obligations"].append(rec)
     return out
 
 
-def replay_refutation(con, sc, ob, model, seed):
+def replay_refutation(con, sc, ob, model, seed, any_label=False):
     """Concretise the counter-model, run the real function, evaluate the clause natively.
     Falls back to a small-scope native search for a witness of the same clause."""
     info = {"obligation": ob.name, "reproduced": False, "input": None, "observed": None, "model": None,
@@ -168,7 +176,7 @@ def replay_refutation(con, sc, ob, model, seed):
             nr = native.native_eval(con, argvals)
             if not nr.in_domain:
                 continue
-            hits = [f for f in nr.failures if f[0] == label]
+            hits = [f for f in nr.failures if any_label or f[0] == label]
             if hits:
                 info.update(reproduced=True, input=repr(argvals)[:2000], observed=nr.outcome,
                             failure=hits[0], argvals=_jsonable(argvals), search=f"small-scope search, {tried} inputs")
